@@ -24,17 +24,20 @@ class C06(Prop):
                  "on the real Registry<Key, S> with a counting storage double, the model running with the implementation's own get_hash values; "
                  "plus a free-running stress engine (real threads, no scheduler)")
     level_text = ("Theorems (Coq; every schedule, any number of threads and calls, any k, any hash with keq a b -> hash a = hash b, keq an "
-                  "equivalence): at every configuration each (kind, key class) has at most one entry and every storage id occurs in at most "
-                  "one entry of the whole registry; entries sit in the shard their hash selects; constructions(kind, class) = removals(kind, class) "
-                  "+ live(kind, class); two get_or_create calls with equal keys with no removal of that class in between return the same id; "
-                  "each lock-sized step acts on the concatenation of the shards exactly as the corresponding single-map operation; at quiescence "
-                  "visit/handles report exactly the live entries once, delete returns true iff present and removes exactly that class, "
-                  "retain/clear keep exactly the matching/no entries. Tied to /repo by replaying histories and schedules on the real code.")
+                  "equivalence -- instantiated with the C03 model of real keys, C06_instantiated_with_C03): at every configuration each (kind, key class) "
+                  "has at most one entry and every storage id occurs in at most one entry of the whole registry; entries sit in the shard their hash "
+                  "selects; constructions(kind, class) = removals(kind, class) + live(kind, class); two get_or_create calls with equal keys with no "
+                  "removal of that class in between return the same id; the sharded machine is simulated along every schedule by the single-map "
+                  "reference machine (same trace, same return values and listings, each hash band of the single map = the shard); at quiescence "
+                  "visit/handles return exactly the live entries once, delete returns true iff present and removes exactly that class, a retain call "
+                  "leaves exactly the matching entries and a clear call nothing (machine-level, the call run alone); the model's run of every case "
+                  "passes spec_ok (C06_spec_ok_on_model) and spec_ok means agreement with the single-map replay (C06_spec_ok_sound). Tied to /repo by "
+                  "replaying histories and schedules on the real code plus a free-running stress engine.")
     level_note = ("SC interleaving at lock granularity: RwLock and hashbrown are trusted to give mutual exclusion / map semantics (a shard is an "
                   "association list searched by (hash, ==)). retain/clear/visit are modelled as the code is: one shard lock after the other, so "
-                  "they are not atomic over the registry. hash_respects_eq and keq-equivalence are Section hypotheses (what C03 proves of real "
-                  "keys); the executable check runs with the real get_hash values. spec_ok is the single-map reference machine of Spec.v replayed "
-                  "on the observed lock order; spec_ok_on_model for all cases is not proved (the step-level refinement lemmas are).")
+                  "they are not atomic over the registry (the reference machine sweeps the single map band by band in the same way). The executable "
+                  "model runs with hash := the hash the implementation reported for the first key of the same class named by the case, so the key "
+                  "contract holds by construction; spec_ok additionally requires that all keys of one class were reported with one hash.")
     rule = ("histories: 1 thread, 4-14 calls over 2-5 key classes (variants = equal keys built differently; classes chosen to collide in one "
             "shard half of the time), all three kinds, every call kind; exhaustive schedules of {2 creators}, {creator || create;delete}, "
             "{create;get || delete} (thorough: + {creator || retain}, {2x2 calls}); races: 2-3 threads x 1-2 calls ({2 creators same key}, {creator || "
